@@ -199,11 +199,6 @@ def ansOf : Option Err → String
   | some .partiallyApplied => "partial"
   | some _ => "err"
 
-def specApplyChange (w : B6.Spec.World.World) : Change → B6.Spec.World.World
-  | .addFeatures fs => fs.foldl (fun w f => B6.Spec.World.addFeature w f.id f.tags) w
-  | .addTags ts => ts.foldl (fun w e => B6.Spec.World.addTag w e.1 e.2) w
-  | .removeTags ts => ts.foldl (fun w e => B6.Spec.World.removeTag w e.1 e.2) w
-
 /-- a mutating op on the live world: run the model, update the spec according to the
 implementation's answer -/
 def mutate (st : St) (op : Op) (impl : String) (specStep : B6.Spec.World.World → B6.Spec.World.World) : St × Verdict :=
@@ -287,7 +282,7 @@ def step (st : St) (op impl : String) : St × Verdict :=
       | none => (st, .bad)
   | ["mapply"] =>
     let cs := st.pending
-    let (st, v) := mutate st (.merged cs) impl (fun w => cs.foldl specApplyChange w)
+    let (st, v) := mutate st (.merged cs) impl (fun w => B6.Spec.World.applyOp w (.merged cs))
     ({ st with pending := [] }, v)
   | ["snapshot"] =>
     match st.store with
